@@ -601,3 +601,69 @@ def pdb_atom_record_rules(ck, rule):
         ok = u(val) == "first_alpha(properties['atomname'])"
     ck.ob(rule, pdb.loc(fn), ok, 'a record without an element column gets the first letter of its atom name as element (independent of how the name is aligned or numbered: '
           '"HE21" and "1HE2" are both H); a given element is never overridden', key=rule + '|element')
+
+
+# ----------------------------------------------------------------------------------------------------------------------
+def reference_residue_rules(ck, rule):
+    """repair_graph._get_reference_residue: the reference block carries every requested modification, cumulatively."""
+    # ------------------------------------------------------------ the reference block is built from *every* request of the residue
+    rgm = ck.index.mod('vermouth/processors/repair_graph.py')
+    grr = rgm.func('_get_reference_residue')
+    ck.analysed(rgm, grr)
+    ml = [l for l in ast.walk(grr) if isinstance(l, ast.For) and u(l.iter) in ('modifications', "residue['modification']")]
+    ok = len(ml) == 1
+    detail = ''
+    if ok:
+        patches = stmts_with_env(grr, lambda s_: isinstance(s_, ast.Assign) and call_name(s_.value) == '_patch_modification', stmts=ml[0].body)
+        ok = len(patches) == 1 and not any(isinstance(n, (ast.Break, ast.Return)) for n in ast.walk(ml[0]))
+        if ok:
+            st, cond, env = patches[0]
+            var = u(ml[0].target)
+            want = ('not', ('atom', ('Eq', "'none'", var)))
+            alt = ('not', ('atom', ('Eq', var, "'none'")))
+            ok = (flow.equivalent(cond, want)[0] or flow.equivalent(cond, alt)[0]) and u(st.targets[0]) == 'reference_block' and \
+                u(st.value.args[0]) == 'reference_block' and u(flow.subst(st.value.args[1], env)) == 'force_field.modifications[{}]'.format(var)
+            detail = flow.show(cond)[:80]
+    ck.ob(rule, rgm.loc(grr), ok, 'every modification requested for the residue, except the placeholder "none", is patched onto the reference block, cumulatively, '
+          'and no request ends the loop early ({})'.format(detail), key=rule + '|reference-modifications')
+    rb = assignments_to(grr, 'reference_block')
+    first = u(rb[0]) if rb else ''
+    rn = assignments_to(grr, 'resname')
+    ok = first == 'force_field.reference_graphs[resname]' and sorted(u(v) for v in rn) == sorted(['mutation', "residue['resname']"]) and \
+        'mutation = mutation[0]' in u(grr) and 'if not are_all_equal(mutation):' in u(grr)
+    ck.ob(rule, rgm.loc(grr), ok, 'the reference block is the block named by the mutation request when there is one (conflicting requests are an error), '
+          'else the block of the residue name', key=rule + '|reference-block')
+
+
+# ----------------------------------------------------------------------------------------------------------------------
+def runs_every_molecule(ck, rel, clsname, rule, allow_filter=None):
+    """The processor visits every molecule of the system: run_system is inherited from Processor (which does), or calls
+    super().run_system(system) unconditionally, or loops over system.molecules calling run_molecule unconditionally."""
+    proc = ck.index.mod('vermouth/processors/processor.py')
+    base = ck.need(method(proc.cls('Processor'), 'run_system'), 'Processor.run_system vanished')
+    loops = [l for l in base.body if isinstance(l, ast.For) and u(l.iter) == 'system.molecules']
+    ok_base = len(loops) == 1 and len(loops[0].body) == 1 and 'self.run_molecule({})'.format(u(loops[0].target)) in u(loops[0].body[0]) and \
+        any(isinstance(s_, ast.Assign) and u(s_.targets[0]) == 'system.molecules' for s_ in base.body)
+    ck.ob(rule, proc.loc(base), ok_base, 'Processor.run_system runs run_molecule on every molecule of the system, unconditionally, and stores the results', key=rule + '|Processor.run_system')
+    module = ck.index.mod(rel)
+    cls = module.cls(clsname)
+    rs = method(cls, 'run_system')
+    bases = [u(b).split('.')[-1] for b in cls.bases]
+    if rs is None:
+        ck.ob(rule, module.loc(cls), 'Processor' in bases, '{} inherits run_system from Processor (bases: {})'.format(clsname, bases), key='{}|{}'.format(rule, clsname))
+        return
+    ck.analysed(module, rs)
+    sup = calls_with_env(rs, lambda c: u(c.func) == 'super().run_system')
+    ok = False
+    how = 'neither super().run_system(system) nor a loop over system.molecules'
+    if len(sup) == 1:
+        ok = flow.valid(sup[0][2]) and [u(a) for a in sup[0][0].args] == [param_names(rs)[1]] and 'Processor' in bases
+        how = 'super().run_system({}) under {}'.format(', '.join(u(a) for a in sup[0][0].args), flow.show(sup[0][2])[:60])
+    else:
+        lps = [l for l in ast.walk(rs) if isinstance(l, ast.For) and (u(l.iter).endswith('.molecules') or u(l.iter).endswith('.molecules)'))]
+        if len(lps) == 1:
+            calls = calls_with_env(rs, lambda c: u(c.func) in ('self.run_molecule',), stmts=lps[0].body)
+            ok = len(calls) == 1 and (flow.valid(calls[0][2]) or (allow_filter is not None and allow_filter(calls[0][2]))) and \
+                not any(isinstance(n, (ast.Break, ast.Return)) for n in ast.walk(lps[0]))
+            how = 'loop over {} calling run_molecule under {}'.format(u(lps[0].iter), flow.show(calls[0][2])[:60] if calls else '?')
+    ck.ob(rule, module.loc(rs), ok, '{}.run_system treats every molecule of the system: {}'.format(clsname, how), key='{}|{}'.format(rule, clsname))
